@@ -1,50 +1,9 @@
 ----------------------------- MODULE GroupName -----------------------------
 (* C19: identity of a group = centre name + multiset of peripheral names.  *)
-(* Hand transcription of the documented meaning of group names (docstring  *)
-(* of Group.parse and Group.__init__), not of the code:                    *)
-(*   name ::= centre { '(' peripheral ')' [count] }                        *)
-(* The canonical name lists the distinct peripherals in code-point order,  *)
-(* each followed by its count when the count is not one.                   *)
-(*                                                                         *)
 (* State machine: a dictionary keyed by groups (what GroupLibrary.contents *)
-(* is) driven by Insert / Lookup / Compare with arbitrary spellings.       *)
-EXTENDS Text, TLC
-
-\* ---------------------------------------------------------------- meaning
-GroupErr == [ok |-> FALSE, err |-> "GroupSyntaxError"]
-
-\* Fold over the parts after the centre, with the pending peripheral `nxt`
-\* (<<>> = none).  A number applies to the pending peripheral; a number with
-\* nothing pending is the documented syntax error.
-RECURSIVE ParseParts(_, _, _)
-ParseParts(parts, nxt, acc) ==
-  IF parts = <<>> THEN
-     [ok |-> TRUE, psgs |-> IF nxt = <<>> THEN acc ELSE Append(acc, nxt)]
-  ELSE LET p == Head(parts) rest == Tail(parts) IN
-     IF p = <<>> THEN ParseParts(rest, nxt, acc)
-     ELSE IF AllDigits(p) THEN
-        IF nxt = <<>> THEN GroupErr
-        ELSE ParseParts(rest, <<>>,
-                        acc \o [i \in 1..DecValue(p) |-> nxt])
-     ELSE ParseParts(rest, p, IF nxt = <<>> THEN acc ELSE Append(acc, nxt))
-
-ParseG(text) ==
-  LET parts == SplitAt(text, {LPAREN, RPAREN})
-      r == ParseParts(Tail(parts), <<>>, <<>>)
-  IN IF r.ok THEN [ok |-> TRUE, csg |-> Head(parts), psgs |-> r.psgs] ELSE r
-
-RECURSIVE CanonParts(_, _)
-CanonParts(names, bag) ==
-  IF names = <<>> THEN <<>>
-  ELSE LET n == Head(names) IN
-       (<<LPAREN>> \o n \o <<RPAREN>>
-        \o (IF bag[n] = 1 THEN <<>> ELSE DecText(bag[n])))
-       \o CanonParts(Tail(names), bag)
-
-Canon(csg, psgs) ==
-  LET bag == BagOf(psgs) IN csg \o CanonParts(SortTexts(DOMAIN bag), bag)
-
-SameGroup(g, h) == g.csg = h.csg /\ BagOf(g.psgs) = BagOf(h.psgs)
+(* is) driven by Insert / Lookup / Compare with arbitrary spellings; the   *)
+(* meaning of names (ParseG, Canon) is in GroupNameDef.tla.                *)
+EXTENDS GroupNameDef
 
 \* ---------------------------------------------------------- state machine
 \* A "ref" names a group the way client code can: by spelling to be parsed,
